@@ -67,6 +67,68 @@ def leaf_checks(entry, out, depth=0):
         out.append((k, None, None))
 
 
+def _scalar(v):
+    return v is None or isinstance(v, (bool, int, float, str))
+
+
+def _same(a, b):
+    return type(a) is type(b) and a == b
+
+
+def evidence(entry, out):
+    """every listed comparison with its own evidence: does the comparison the report prints (operator, negated, from value, to value(s)) really
+    fail on the values it prints?  out gets (verdict, description); verdict None = not judged (collections, literals that may be patterns)"""
+    (k, v), = entry.items()
+    if k in ("Rule", "Disjunctions"):
+        for c in v.get("checks", []):
+            evidence(c, out)
+        return
+    if k != "Clause":
+        return
+    (ck, cv), = v.items()
+    chk = cv.get("check") or {}
+    if not isinstance(chk, dict):
+        return
+    try:
+        if "InResolved" in chk:
+            chk["InResolved"]["from"]["value"], chk["InResolved"]["to"], chk["InResolved"]["comparison"]
+        if "Resolved" in chk:
+            chk["Resolved"]["from"]["value"], chk["Resolved"]["to"]["value"], chk["Resolved"]["comparison"]
+    except (KeyError, TypeError):
+        out.append((None, "")); return              # another shape of the same record (e.g. a unary check)
+    if "InResolved" in chk:
+        x = chk["InResolved"]
+        frm, tos, (op, negated) = x["from"]["value"], x["to"], x["comparison"]
+        if op != "In" or not _scalar(frm) or not tos:
+            out.append((None, "")); return          # `q1 == q2` / `q1 != q2` list differences in both directions, one entry per value: not judged
+        if x["from"].get("path") in [t_.get("path") for t_ in tos if t_.get("path")]:
+            # `q1 == q2` also lists the right-hand values that no left-hand value equals, printed as from = to = that value: the roles of
+            # from/to in query-to-query comparisons are not part of the statement (see C10)
+            out.append((None, "")); return
+        members = []
+        for t_ in tos:
+            tv = t_["value"]
+            for m in (tv if isinstance(tv, list) else [tv]):
+                members.append((m, t_.get("path", "")))
+        if not all(_scalar(m) for m, _p in members) or (isinstance(frm, str) and any(p_ == "" for _m, p_ in members)):
+            out.append((None, "")); return          # collections; string literals may be patterns
+        if not all(type(m) is type(frm) for m, _p in members):
+            out.append((None, "")); return          # values of another type are not comparable: `!=` fails on them too (C13)
+        holds = any(_same(frm, m) for m, _p in members)
+        out.append((holds == negated, "%s%s: %r against %r" % ("not " if negated else "", op, frm, [m for m, _p in members])))
+    elif "Resolved" in chk:
+        x = chk["Resolved"]
+        frm, to, (op, negated) = x["from"]["value"], x["to"]["value"], x["comparison"]
+        if not _scalar(frm) or not _scalar(to) or type(frm) is not type(to) or isinstance(frm, bool) or frm is None:
+            out.append((None, "")); return
+        if isinstance(frm, str) and x["to"].get("path", "") == "":
+            out.append((None, "")); return
+        fn = {"Eq": lambda a, b: a == b, "Gt": lambda a, b: a > b, "Ge": lambda a, b: a >= b, "Lt": lambda a, b: a < b, "Le": lambda a, b: a <= b}.get(op)
+        if fn is None:
+            out.append((None, "")); return
+        out.append((fn(frm, to) == negated, "%s%s: %r against %r" % ("not " if negated else "", op, frm, to)))
+
+
 def source_call_messages(text):
     """{called rule name: set of custom messages (None = no message)} for every parameterised call in the rules text"""
     import re
@@ -187,6 +249,17 @@ def check_report(ctx, tree, report, case, label):
                     ctx.violation("call-message:%s:%s" % (label, where), "the %s of a call of %s carries message %r, but the calls of %s in the rules file have %s" % (
                         where, name, msg, name, sorted(src[name], key=str)), case)
                     ok = False
+    # every listed comparison must fail on the very values it prints
+    for e in report.get("not_compliant", []):
+        ev = []
+        evidence(e, ev)
+        for verdict, what in ev:
+            ctx.res.counts["listed_comparisons_judged" if verdict is not None else "listed_comparisons_not_judged"] += 1
+            if verdict is False:
+                ctx.violation("evidence:%s:listed-check-does-not-fail" % label, "rule %s lists as failed a comparison that holds on the values it prints (%s)" % (
+                    e.get("Rule", {}).get("name"), what), case)
+                ok = False
+                break
     # leaf attribution
     subtree = {}
     for ch in tree.get("children", []):
@@ -233,6 +306,22 @@ def canon_entry(e):
 def shard(ctx):
     rng = ctx.rng("c09")
     o = gen.Opts(types=True, calls=True, msgs=False, max_rules=4, max_lines=3, default=False, interp=True)
+    # ---- comparisons between two queries with partial matches: only the values that do not match may be listed
+    if ctx.mine(0):
+        qdoc = {"xs": [1, 2, 3, 4], "allowed": [1, 2], "names": ["a", "b", "c"], "ok": ["a", "c"], "two": 2, "lim": "b", "none": []}
+        qd = json.dumps(qdoc)
+        qclauses = ["xs[*] in allowed[*]", "not xs[*] in allowed[*]", "xs[*] == allowed[*]", "xs[*] != allowed[*]", "names[*] in ok", "names[*] in ok[*]", "xs[*] > two",
+                    "xs[*] <= two", "xs[*] in [1, 2]", "xs[*] not in allowed[*]", "names[*] not in ok[*]", "names[*] < lim", "not names[*] >= lim", "some xs[*] in allowed[*]",
+                    "let a = allowed[*]\n    xs[*] in %a", "let a = allowed\n    xs[*] in %a", "let o = ok[*]\n    names[*] == %o", "let x = xs[*]\n    %x in allowed[*]"]
+        qtext = "".join("rule q%d {\n    %s <<m%d>>\n}\n" % (i, c, i) for i, c in enumerate(qclauses))
+        rv = ctx.w.run({"k": "rc", "data": qd, "rules": qtext, "verbose": True})
+        rn = ctx.w.run({"k": "rc", "data": qd, "rules": qtext, "verbose": False})
+        ctx.res.cases += 1
+        if rv.get("r") != "ok" or rn.get("r") != "ok":
+            ctx.inconclusive("crash" if (core.crash_signature(rv) or core.crash_signature(rn)) else "query-comparison-gadget-error")
+        else:
+            check_report(ctx, json.loads(rv["out"]), json.loads(rn["out"]), {"kind": "single", "rules": qtext, "data": qd}, "library")
+            ctx.res.counts["query_comparison_gadgets"] += 1
     n = 500 if ctx.quick else 18000
     for t in range(n):
         doc = gen.gen_doc(rng)
